@@ -19,7 +19,7 @@ Open Scope nat_scope.
 (* ---- one_report_per_week (sequential run = one thread; every schedule of it,
         i.e. every order in which Go's map iteration visits the weeks).
         For a week W with no report before (no local.W.json, no W.json, no
-        upload/W.json, no ready file whose path contains W), whose count files
+        upload/W.json, no ready file whose name contains W), whose count files
         all ended before the start time and one of which has a counter:
         when the run has returned, local.W.json exists, is the unfiltered
         report of week W, and folds in exactly W's count files.
@@ -30,9 +30,9 @@ Theorem C07_one_report_per_week :
   d_mem (f_local f) (local_name W) = false ->
   d_mem (f_local f) (ready_name W) = false ->
   d_mem (up_dir f) (marker_name W) = false ->
-  (forall g, d_mem (f_local f) g = true -> collect_ready c g = true -> contains (u_dir c ++ g) W = false) ->
+  (forall g, d_mem (f_local f) g = true -> collect_ready c g = true -> contains g W = false) ->
   (forall n id ct cf, d_find (f_local f) n = Some (id, ct) -> parse ct = Some cf ->
-     uploader_week (cf_end cf) <> W -> contains (u_dir c ++ ready_name (uploader_week (cf_end cf))) W = false) ->
+     uploader_week (cf_end cf) <> W -> contains (ready_name (uploader_week (cf_end cf))) W = false) ->
   (forall n cf, wfile f W n cf -> before_start (cf_end cf) (u_start c) = true) ->
   (exists n cf, wfile f W n cf /\ cf_counts cf <> []) ->
   forall sched t, s_ths (run sched (init_state f [c])) = [t] -> t_pc t = Done ->
@@ -45,11 +45,12 @@ Print Assumptions C07_one_report_per_week.
 (* ---- delete_only_after_report: when a step removes a count file n, then at
         this or an earlier state of the run a report for the remover's current
         week existed (local.W.json, W.json, upload/W.json, or a ready file
-        whose path contains W) - and n is a count file of that week ---- *)
+        whose NAME contains W: since fix db874db the directory path is no
+        longer searched) - and n is a count file of that week ---- *)
 Theorem C07_delete_only_after_report : forall st tr i a t n t',
   treach (st :: tr) -> nth_error (s_ths st) i = Some t ->
   decide_all (s_fs st) a t = (ERemLocal n, t') -> is_count n = true ->
-  ever (witness (t_week t) (u_dir (t_cfg t))) (st :: tr).
+  ever (witness (t_week t)) (st :: tr).
 Proof. exact delete_only_after_report. Qed.
 Print Assumptions C07_delete_only_after_report.
 
@@ -226,14 +227,16 @@ Example C07_ex_report_computed :
   /\ map fst (f_local (s_fs (run ex_sched (init_state rf_fs [rf_cfg])))) = [local_name rf_W].
 Proof. vm_compute. split; reflexivity. Qed.
 
-(* the path, not the name, is searched by notNeeded: with the week's date in
-   the directory path, any ready file makes the uploader delete the week's count
-   files without ever writing a report for it *)
+(* fix db874db: the week's date in the directory PATH no longer makes
+   notNeeded true: with an unrelated ready file present the week is reported
+   (before the fix its count file was deleted without a report) *)
 Definition dp_cfg : ucfg := mkCfg (1705000000%Z, 0%Z) true None (s2b "/backup-2024-01-07/local/"%string).
 Definition dp_fs : FS :=
   mkFS [(rf_a, (0, CCount (Some rf_cf1) 1%N)); (s2b "2023-12-31.json"%string, (1, CRaw 9%N))] (Some []) 2.
-Example C07_ex_dir_path_contains_date :
-  let st := run [rf_S 0; rf_S 0; rf_S 0; (0, APick rf_W); rf_S 0] (init_state dp_fs [dp_cfg]) in
-  d_mem (f_local (s_fs st)) rf_a = false /\ d_mem (f_local (s_fs st)) (local_name rf_W) = false /\
-  d_mem (f_local (s_fs st)) (ready_name rf_W) = false.
+Example C07_ex_dir_path_with_date_harmless :
+  let st := run [rf_S 0; rf_S 0; rf_S 0; (0, APick rf_W); rf_S 0; rf_S 0; rf_S 0; rf_S 0; rf_S 0; rf_S 0]
+                (init_state dp_fs [dp_cfg]) in
+  d_mem (f_local (s_fs st)) rf_a = true /\
+  option_map (fun v => match snd v with CRep (Some r) => map fst (r_files r) | _ => [] end)
+    (d_find (f_local (s_fs st)) (local_name rf_W)) = Some [rf_a].
 Proof. vm_compute. repeat split. Qed.
